@@ -524,4 +524,61 @@ def bosonicQuad {K : Type} [Zero K] [Add K] [Sub K] [Mul K] (c s : K) (comps : L
 def bosonicMarginalParams {K : Type} [Add K] [Mul K] (c s : K) (comps : List (K × GData K)) : List (K × K × K) :=
   comps.map fun p => (p.1, (quad1 c s p.2).1, (quad1 c s p.2).2)
 
+/-! ## Gaussian `dm()` / `reduced_dm(modes)`: which Fock tensor is handed out
+
+thewalrus supplies the numbers (`state_vector` → `ψ`, `density_matrix` → `T`, scripted in the correspondence); the state object
+decides which one is used and in which index layout. -/
+
+/-- `np.multiply.outer(psi, psi.conj())` of a `k`-mode ket: axes `0..k-1` are the ket indices, `k..2k-1` the bra indices -/
+def outerKet {K : Type} [Mul K] (k : Nat) (cj : K → K) (ψ : Tens K) : Tens K :=
+  fun idx => ψ (fun a => if a < k then idx a else 0) * cj (ψ (fun a => if a < k then idx (a + k) else 0))
+
+/-- `[k for m in range(num) for k in (m, m + num)]` -/
+def dmAxes (k : Nat) : List Nat := (List.range k).flatMap fun m => [m, m + k]
+
+/-- the documented layout `ρ[i₀, j₀, i₁, j₁, …] = ψ[i₀, i₁, …] · conj ψ[j₀, j₁, …]` (what `mix` of K4 produces, restricted to
+`k` modes) -/
+def dmSpec {K : Type} [Mul K] (k : Nat) (cj : K → K) (ψ : Tens K) : Tens K :=
+  fun idx => ψ (fun a => if a < k then idx (2 * a) else 0) * cj (ψ (fun a => if a < k then idx (2 * a + 1) else 0))
+
+/-- `BaseGaussianState.reduced_dm(modes)` (`dm()` is the call with `modes = range(n)`): guards, then the state-vector branch only
+when the state is pure *and* no mode is traced out (fix `027e54e`), transposed into the documented layout (fix `a25e90d`); otherwise
+thewalrus' density matrix as it comes.  Returns the number of modes and the tensor. -/
+def gaussReducedDm {K : Type} [Mul K] (cj : K → K) (n : Nat) (modes : List Nat) (isPure : Bool) (ψ T : Tens K) :
+    Except Err (Nat × Tens K) :=
+  if !isSortedLe modes then .error .valueError
+  else if modes.length > n then .error .valueError
+  else if modes ≠ List.range n && (gaussInd n modes).any (fun i => decide (2 * n ≤ i)) then .error .indexError
+  else if isPure && modes.length == n then .ok (modes.length, trList (dmAxes modes.length) (outerKet modes.length cj ψ))
+  else .ok (modes.length, T)
+
+/-! ## bosonic `fidelity_coherent`, `purity`, `wigner`: what is handed to `exp` / `det` / `inv`
+
+Components are `(weight, (mu, cov))` in the xpxp ordering of the bosonic state object. -/
+
+/-- `fidelity_coherent(alpha_list)`: per component `(weight, deltas = mus − alpha_mean, cov_sum = covs + ħ/2 · 1)`;
+`sq = sqrt(2ħ)`, `h2 = ħ/2`; the value is `ħⁿ Σ w · exp(−½ δᵀ cov_sum⁻¹ δ) / sqrt(det cov_sum)` -/
+def bosonicFidelityArgs {K : Type} [Zero K] [Add K] [Sub K] [Mul K] (sq h2 : K) (alphaRe alphaIm : Nat → K)
+    (comps : List (K × GData K)) : List (K × GData K) :=
+  comps.map fun p =>
+    (p.1, { mu := fun a => p.2.mu a - (if a % 2 = 0 then alphaRe (a / 2) * sq else alphaIm (a / 2) * sq)
+            cov := fun a b => p.2.cov a b + (if a = b then h2 else 0) })
+
+/-- `purity()`: for the outer component `i` and every component `j`: `(w_j · w_i, μ_i − μ_j, cov_j + cov_i)`; the value is
+`ħⁿ Σ w · exp(−½ δᵀ Σ⁻¹ δ) / sqrt(det Σ)` -/
+def bosonicPurityArgs {K : Type} [Add K] [Sub K] [Mul K] (comps : List (K × GData K)) : List (K × GData K) :=
+  comps.flatMap fun pi => comps.map fun pj =>
+    (pj.1 * pi.1, { mu := fun a => pi.2.mu a - pj.2.mu a, cov := fun a b => pj.2.cov a b + pi.2.cov a b })
+
+/-- `wigner(mode, x, p)` at one grid point, per component of the reduced one-mode state: `(weight, δᵀ adj(cov) δ, det cov)` with
+`δ = (x − μ_x, p − μ_p)`; the value is `Σ w · exp(−½ · first / second) / (2π sqrt(second))` -/
+def bosonicWignerArgs {K : Type} [Add K] [Sub K] [Mul K] (x p : K) (comps : List (K × GData K)) : List (K × K × K) :=
+  comps.map fun c =>
+    (c.1, parity1 { mu := fun a => if a = 0 then x - c.2.mu 0 else p - c.2.mu 1, cov := c.2.cov })
+
+/-- one-mode bosonic `parity_expectation([mode])`, per component `(weight, μᵀ adj(cov) μ, det cov)`; the value is
+`(ħ/2) Σ w · exp(−½ · first / second) / sqrt(second)` -/
+def bosonicParityArgs1 {K : Type} [Add K] [Sub K] [Mul K] (comps : List (K × GData K)) : List (K × K × K) :=
+  comps.map fun c => (c.1, parity1 c.2)
+
 end SFV.States
